@@ -357,6 +357,7 @@ class RTCDtlsTransport(AsyncIOEventEmitter):
         super().__init__()
         self.encrypted = False
         self._data_receiver: Optional[DataReceiver] = None
+        self._early_data: list[bytes] = []
         self._role = "auto"
         self._rtp_header_extensions_map = rtp.HeaderExtensionsMap()
         self._rtp_router = RtpRouter()
@@ -543,6 +544,14 @@ class RTCDtlsTransport(AsyncIOEventEmitter):
         # start data pump
         self.__log_debug("- DTLS handshake complete")
         self._set_state(State.CONNECTED)
+
+        # hand over application data which arrived before the peer's identity
+        # was verified (e.g. reordered ahead of the final handshake flight)
+        early_data, self._early_data = self._early_data, []
+        for data in early_data:
+            if self._data_receiver:
+                await self._data_receiver._handle_data(data)
+
         self._task = asyncio.ensure_future(self.__run())
 
     async def stop(self) -> None:
@@ -656,6 +665,10 @@ class RTCDtlsTransport(AsyncIOEventEmitter):
             if data is None:
                 self.__log_debug("- DTLS shutdown by remote party")
                 raise ConnectionError
+            elif data and self._state != State.CONNECTED:
+                # never hand over application data before the fingerprint check
+                if self._state == State.CONNECTING:
+                    self._early_data.append(data)
             elif data and self._data_receiver:
                 await self._data_receiver._handle_data(data)
         elif first_byte > 127 and first_byte < 192 and self._rx_srtp:
